@@ -335,7 +335,7 @@ def history_stage(tier):
             info['grammars'].append(dict(grammar=g['name'], paths=r['paths'], witnesses=len(wit)))
             if len(wit) < 2:
                 continue
-            jobs, plan = [], []
+            jobs, plan, tight = [], [], []
             sents = [ob.job(w['model'])['sentences'][0] for w in wit]
             pens = [ob.job(w['model'])['config']['unary_penalty'] for w in wit]
             # an unparsable sentence: scores fine but a single token whose only tags are not roots / too long / etc. are built from the grammar
@@ -352,6 +352,7 @@ def history_stage(tier):
                 use_pool = len(plan) < (4 if q else 12)       # a real 2-process pool costs >= 1 s per batch (the polling loop sleeps)
                 jobs += [J([u]), J([w]), J([u, w]), J([w, u]), J([u, long, w], max_length=2), J([u, w], processes=2, max_chunk_size=1) if use_pool else J([u, w]), J([w, u, w])]
                 plan.append((i, len(jobs) - 7))
+                tight.append((i, u, w, J))
             res = bn.run(jobs, timeout=1500)
             info['batches'] += len(jobs)
             for (i, k) in plan:
@@ -377,6 +378,28 @@ def history_stage(tier):
                 for x, nn in ((uw, 2), (wu, 2), (ulw, 3), (pool, 2), (wuw, 3)):
                     if x['n_results'] != nn:
                         bad.append(('history.result-count', dict(grammar=g['name'], got=x['n_results'], expected=nn)))
+            # the step budget is per sentence: with max_step = the larger of the two solo pop counts both sentences still parse in one batch
+            tjobs, tplan = [], []
+            for (i, k), (_, u, w, J) in list(zip(plan, tight))[:(8 if q else 40)]:
+                pu, pw = len(res[k]['pops'][0]) if res[k].get('pops') else 0, len(res[k + 1]['pops'][0]) if res[k + 1].get('pops') else 0
+                m = max(pu, pw)
+                if m < 1:
+                    continue
+                tjobs += [J([u], max_step=m), J([w], max_step=m), J([u, w], max_step=m), J([w, u, w], max_step=m)]
+                tplan.append(len(tjobs) - 4)
+            tres = bn.run(tjobs, timeout=900) if tjobs else []
+            info['batches'] += len(tjobs)
+            for k in tplan:
+                su, sw, uw2, wuw2 = tres[k:k + 4]
+                if any(x.get('error') for x in (su, sw, uw2, wuw2)):
+                    bad.append(('history.run-raises', dict(grammar=g['name'], error=[x.get('error') for x in (su, sw, uw2, wuw2) if x.get('error')][0][:300])))
+                    continue
+                def key2(x, s):
+                    return [(t['key'], t['score'], t['placeholder']) for t in x['sentences'][s]]
+                for name, a, b in (('step-budget-shared-across-sentences', key2(uw2, 1), key2(sw, 0)), ('step-budget-shared-across-sentences', key2(uw2, 0), key2(su, 0)), ('step-budget-shared-across-sentences', key2(wuw2, 2), key2(sw, 0))):
+                    if a != b:
+                        bad.append(('history.result-differs.' + name, dict(grammar=g['name'], got=a, solo=b, job=tjobs[k + 2])))
+                        break
     finally:
         ba.close()
         bn.close()
